@@ -71,6 +71,8 @@ type unit struct {
 	kf      *knownFindings
 	ghostTypes map[string]types.Type
 	rawBoxed bool
+	retries  int
+	curLoopSpec *loopSpec // the loop whose clauses are being evaluated
 	implFacts  map[string]bool
 	implAxioms []string
 	codeLoad bool // a load instruction of the code (not a contract expression) is being executed
